@@ -11,122 +11,9 @@
     * `frame_no += 1`: overflows only after 2^64 pushes (stated as hypothesis where used; unreachable in practice);
     * PC / SP / address arithmetic: all `wrapping_*` in the code, `BitVec` arithmetic in the model.
 -/
-import Lc3V.Props.C08
+import Lc3V.Lemmas.DevStep
 namespace Lc3V.C16
 open Lc3V Sim SimM DevHandler
-
-/-- every port's device id is a valid index into `devices` -/
-def DevInv (h : DevHandler) : Prop := ∀ i : Fin 512, h.ports[i] < h.devices.size
-
-theorem dispatch_in_bounds (h : DevHandler) (hi : DevInv h) (addr : W) (id : Nat) (hg : h.getDevId addr = some id) :
-    id < h.devices.size := by
-  unfold getDevId at hg
-  cases hp : portIdx addr with
-  | none => simp [hp] at hg
-  | some i => simp [hp] at hg; rw [← hg]; exact hi i
-
-theorem setPort_inv (h : DevHandler) (p : W) (id : Nat) (hi : DevInv h) : DevInv (h.setPort p id) := by
-  unfold setPort
-  split
-  · exact hi
-  · rename_i i _
-    split
-    · rename_i hc
-      intro j
-      show (h.ports.set i id)[j] < h.devices.size
-      by_cases hij : i.val = j.val
-      · have : (h.ports.set i id)[j] = id := by
-          simp only [Fin.getElem_fin]; rw [Vector.getElem_set]; simp [hij]
-        rw [this]; exact hc.2
-      · have : (h.ports.set i id)[j] = h.ports[j] := by
-          simp only [Fin.getElem_fin]; rw [Vector.getElem_set]; simp [hij]
-        rw [this]; exact hi j
-    · exact hi
-
-theorem setPort_size (h : DevHandler) (p : W) (id : Nat) : (h.setPort p id).devices.size = h.devices.size := by
-  unfold setPort; split
-  · rfl
-  · split <;> rfl
-
-theorem new_inv : DevInv DevHandler.new := by
-  unfold DevHandler.new
-  apply setPort_inv; apply setPort_inv; apply setPort_inv; apply setPort_inv
-  intro i
-  simp
-
-theorem setKeyboard_inv (h : DevHandler) (d : Device) (hi : DevInv h) : DevInv (h.setKeyboard d) := by
-  intro i; unfold setKeyboard; simp only [Array.size_setIfInBounds]; exact hi i
-
-theorem setDisplay_inv (h : DevHandler) (d : Device) (hi : DevInv h) : DevInv (h.setDisplay d) := by
-  intro i; unfold setDisplay; simp only [Array.size_setIfInBounds]; exact hi i
-
-theorem foldl_setPort_inv (addrs : List W) (id : Nat) (h : DevHandler) (hi : DevInv h) :
-    DevInv (addrs.foldl (fun acc p => acc.setPort p id) h) := by
-  induction addrs generalizing h with
-  | nil => exact hi
-  | cons a rest ih => exact ih _ (setPort_inv h a id hi)
-
-theorem addDevice_inv (h : DevHandler) (d : Device) (addrs : List W) (hi : DevInv h) :
-    DevInv (h.addDevice d addrs).2 := by
-  unfold addDevice
-  split
-  · exact hi
-  · split
-    · apply foldl_setPort_inv
-      intro i
-      simp only [Array.size_push]
-      exact Nat.lt_succ_of_lt (hi i)
-    · exact hi
-
-theorem removeDevice_inv (h : DevHandler) (id : Nat) (hi : DevInv h) : DevInv (h.removeDevice id) := by
-  unfold removeDevice
-  split
-  · rename_i hlt
-    split
-    · intro i; simp only [Array.size_setIfInBounds]; exact hi i
-    · intro i
-      simp only [Array.size_setIfInBounds, Fin.getElem_fin, Vector.getElem_map]
-      split
-      · omega
-      · exact hi i
-  · exact hi
-
-theorem ioRead_inv (h : DevHandler) (a : W) (e : Bool) (hi : DevInv h) : DevInv (h.ioRead a e).2 := by
-  unfold DevHandler.ioRead
-  split
-  · exact hi
-  · intro i; simp only [Array.size_setIfInBounds]; exact hi i
-
-theorem ioWrite_inv (h : DevHandler) (a d : W) (hi : DevInv h) : DevInv (h.ioWrite a d).2 := by
-  unfold DevHandler.ioWrite
-  split
-  · exact hi
-  · intro i; simp only [Array.size_setIfInBounds]; exact hi i
-
-theorem ioReset_inv (h : DevHandler) (hi : DevInv h) : DevInv h.ioReset := by
-  intro i; unfold DevHandler.ioReset; simp only [Array.size_map]; exact hi i
-
-/-- polling visits every device once and keeps their number -/
-theorem poll_size (h : DevHandler) : (h.pollInterrupt).2.devices.size = h.devices.size := by
-  unfold pollInterrupt
-  simp only
-  have key : ∀ (l : List Device) (acc : Option Interrupt × Array Device),
-      (l.foldl pollStep acc).2.size = acc.2.size + l.length := by
-    intro l
-    induction l with
-    | nil => intro acc; simp
-    | cons d rest ih =>
-      intro acc
-      simp only [List.foldl_cons, ih, List.length_cons]
-      simp only [pollStep, Array.size_push]; omega
-  rw [← Array.foldl_toList]
-  have := key h.devices.toList (none, #[])
-  simpa using this
-
-theorem poll_inv (h : DevHandler) (hi : DevInv h) : DevInv (h.pollInterrupt).2 := by
-  intro i
-  rw [poll_size]
-  exact hi i
 
 /-- `alloca[first_post - 1]` is in bounds -/
 theorem inAlloca_index (s : Sim) (addr : W) :
@@ -147,11 +34,21 @@ theorem reg_slice_lt (w : W) (lo : Nat) : (SimInstr.slice w lo (lo + 3)).toNat <
 theorem prefetchPc_total (s : Sim) : s.prefetchPc = s.pc ∨ s.prefetchPc = s.pc - 1 := by
   unfold prefetchPc; cases s.prefetch <;> simp
 
+/-- **the invariant holds in every reachable state**: preserved by every step (any instruction, trap, interrupt; any flags)
+    and every run, so the `devices[dev_id]` index of `io_read`/`io_write` is in bounds after any number of steps -/
+theorem devInv_step (s : Sim) (h : DevInv s.dev) : DevInv (Sim.step s).2.dev := step_dev_inv s h
+
+theorem devInv_run (tw : Tripwire) (fuel iter : Nat) (s : Sim) (h : DevInv s.dev) (r : Except SimErr Pause) (s' : Sim)
+    (hr : runLoop tw fuel iter s = some (r, s')) : DevInv s'.dev := by
+  have := runLoop_dev_inv tw fuel iter s h
+  rw [hr] at this
+  exact this
+
 example : DevInv DevHandler.new := new_inv
 
 def obligations : List Lean.Name :=
   [``dispatch_in_bounds, ``setPort_inv, ``new_inv, ``setKeyboard_inv, ``setDisplay_inv, ``addDevice_inv,
    ``removeDevice_inv, ``ioRead_inv, ``ioWrite_inv, ``ioReset_inv, ``poll_size, ``poll_inv, ``inAlloca_index,
-   ``reg_slice_lt, ``prefetchPc_total]
+   ``reg_slice_lt, ``prefetchPc_total, ``devInv_step, ``devInv_run]
 
 end Lc3V.C16
